@@ -418,7 +418,11 @@ class Context:
         array_prototype._prototype = self._object_prototype
 
         def array_constructor(*args):
-            if len(args) == 1 and isinstance(args[0], (int, float)):
+            if (
+                len(args) == 1
+                and isinstance(args[0], (int, float))
+                and not isinstance(args[0], bool)
+            ):
                 arr = JSArray(self._array_length(args[0]))
             else:
                 arr = JSArray()
